@@ -297,16 +297,18 @@ def rule_c04_write(ctx):
             # refusal: strictly more than what is left; nothing emitted, nothing stored
             if kind != "BodyLargerThanContentLength":
                 bad.append("unexpected refusal %s" % kind)
-            f = st.facts.get(("lt", ("term", ("in", "left")), ("term", ("cast", ("len", ("in", "input")), "u64"))))
-            f2 = [v for k, v in st.facts.items() if k[0] == "lt" and k[1] == ("term", ("in", "left")) and "'len', ('in', 'input')" in repr(k[2])]
-            if not ((f and f[1] is True) or (f2 and f2[0][1] is True)):
-                bad.append("over-length refusal is not guarded by the strict test `input length > remaining`")
+            # refused exactly when the offered input is strictly longer than what is left
+            if not I.decide_le(st, ("term", ("in", "left")), inlen, True):
+                bad.append("a write is refused although the offered input may fit the remaining length (refusal must mean input length > remaining)")
             if emitted or left_now != ("term", ("in", "left")) or ended_now != ("int", 0):
                 bad.append("a refused write has effects (emission or store)")
             continue
         nwrite += 1
         c = o.ret.get((("v", "Ok"), ("f", "0"), ("f", "0")))
         p = o.ret.get((("v", "Ok"), ("f", "0"), ("f", "1")))
+        # accepted only when the whole offered input fits the remaining length
+        if not I.decide_le(st, inlen, ("term", ("in", "left"))):
+            bad.append("a write offering more than the remaining length is accepted (it must be refused without consuming anything)")
         # consumed amount n: bounded by input, remaining and output space
         if not I.decide_le(st, c, inlen):
             bad.append("consumed amount not bounded by the input length")
